@@ -22,6 +22,8 @@ SPEC = dict(
          'whitespace-only content is forced for every file read kind (sensor, rpm, pwm, pwm_enable read-back; regime and per-operation). Observer clause "with the last good data": the sensor-monitor poll (the real updateSensor, all three '
          'sensor backends) of a cycle with a sensor fault leaves the moving average bit-identical, a good poll moves it by UpdateSimpleMovingAvg of the value shown. Observer clause "keeps regulating with the last good data": every cycle that ended without error and without a PWM-write fault (per-operation plans: without any fault) must leave the device at the PWM-map output of that cycle\'s request. sensmon: the real sensor monitor actor (NewSensorMonitor(...).Run with its ticker, 2 ms rate) on real hwmon/file/cmd sensors through fault-then-recovery poll sequences '
          '(1-3 good, 1-5 failed or garbage, then at least as many good polls; two bursts): no panic, all planned polls happen, it stops when cancelled, every observed average follows from the previous one with the last good data. '
+         'Fault kind "lingering child" for cmd sensors and cmd fans (the command fails at once, an orphaned child keeps holding its stdout/stderr; also through the real Run in ctlrun scenario 15): the call must come back with an error; '
+         'every call into the controller and every Run is bounded by the driver\'s watchdog, a call that does not come back is the observation "stuck" (neither regulating nor handed back) and fails the observer; leftover children are killed at the end of the case. '
          'Observer clause "never a made-up request": a cycle whose curve evaluation failed (sensor fault under a curve with a PID leaf) either stops regulation or keeps the request of the previous good cycle; '
          'single transient sensor faults under PID / function-of-PID / nested-PID curves for the direct and the PID control algorithm are generated explicitly. The escape "last-resort write failed" of a stop is only accepted when the operation log shows that the original mode was asked for first. daemon: process-level runs of the real RunDaemon (see C03) where a panic would be in another goroutine '
          '(scenario 5: a controller fails its initialisation; 6/7: the sensor of a PID curve fails while regulating). ctlrun: the real Run in-process (see C03), incl. a control '
